@@ -32,6 +32,12 @@ class C10(Prop):
                 "NV.C10.tie_nextDue",
                 "NV.C10.tie_handleSlot",
                 "NV.C10.tie_efunResult",
+                "NV.C10.tie_unlinkDelta",
+                "NV.C10.tie_insertSplit",
+                "NV.C10.tie_insertWalk",
+                "NV.C10.tie_headDec",
+                "NV.C10.tie_headDue_dec",
+                "NV.C10.tie_chunkPos",
                 "NV.C10.reloadObj_ok",
                 "NV.C10.sim_reload",
                 "NV.C10.first_is_earliest",
@@ -96,6 +102,21 @@ class C10(Prop):
                 "NV.C10.tickend_sim",
                 "NV.C10.stepCmd_sim",
                 "NV.C10.runCmds_sim",
+                "NV.C10.fire_emit_sim",
+                "NV.C10.wheelSize_setSlot",
+                "NV.C10.wheelSize_le_pend",
+                "NV.C10.lo_le_wheelSize",
+                "NV.C10.newCallOut_size",
+                "NV.C10.stepOp_u",
+                "NV.C10.runOps_u",
+                "NV.C10.fireOne_u",
+                "NV.C10.visit_u",
+                "NV.C10.sweepSecond_u",
+                "NV.C10.sweepLoop_u",
+                "NV.C10.sweep_u",
+                "NV.C10.stepCmd_u",
+                "NV.C10.runCmds_u",
+                "NV.C10.usage_exact",
                 "NV.C10.model_satisfies_spec",
                 "NV.C10.wheelInv_always",
                 "NV.C10.sweep_catches_up",
@@ -241,6 +262,11 @@ class C10(Prop):
         mk("int-conversion-same-answer", ["vapply o1 do_op co,1,7,a", "vapply o1 do_op co,1,4294967303,b", "vapply o1 do_op fn,1",
                                           "vapply o1 do_op rmn,1", "vapply o1 do_op fh,a", "vapply o1 do_op fh,b",
                                           "vapply o1 do_op rmn,1", "vapply o1 do_op info"])
+        # more than one argument: string, object (zeroed when destructed before the call), number
+        mk("args", ["vapply o1 do_op coa,0,2,Aa", "vapply o1 do_op coafp,1,2,Ab", "vapply o2 do_op coa,2,3,Ac",
+                    "vapply o1 do_op co,3,2,d", "vapply o1 set_script co:Aa coa,0,1,Ae;dest,o2", "adv 2", "sweep",
+                    "adv 1", "sweep", "vapply o1 do_op coafp,1,40,Af", "vapply o1 do_op rmh,Af", "vapply o1 do_op coa,1,1,Ag",
+                    "vapply o1 do_op reload", "adv 1", "sweep"], nobj=3)
         mk("reschedule-chain", ["vapply o1 set_script co:a co,0,1,b", "vapply o1 set_script co:b co,0,32,c",
                                 "vapply o1 set_script co:c co,0,31,d", "vapply o1 do_op co,0,1,a", "adv 1", "sweep",
                                 "adv 1", "sweep", "adv 32", "sweep", "adv 31", "sweep"])
@@ -255,6 +281,10 @@ class C10(Prop):
             if k in ("co", "cofp"):
                 st["tag"] += 1
                 tag = "t%d" % st["tag"]
+                if rng.chance(1, 3):
+                    # four arguments instead of one (checked by the LPC callback itself)
+                    k = "coa" if k == "co" else "coafp"
+                    tag = "A%d" % st["tag"]
                 st["tags"].setdefault(self_obj, []).append(tag)
                 d = rng.weighted(DELAYS)
                 f = rng.below(4)
@@ -308,7 +338,7 @@ class C10(Prop):
 
     def histogram(self, cases, impl):
         """branch histogram of a run (generator audit): which mechanisms of call_out.c the cases reached"""
-        keys = ["co", "cofp", "co_by_destructed", "co_with_player", "delay_lt1", "delay_lt_wheel", "delay_eq_wheel",
+        keys = ["co", "cofp", "co_by_destructed", "co_with_player", "co_with_4_args", "delay_lt1", "delay_lt_wheel", "delay_eq_wheel",
                 "delay_gt_wheel", "delay_ge_2^31", "fires", "fires_with_player", "fp_owner_destructed",
                 "rmh_hit", "rmh_miss", "rmn_hit", "rmn_miss", "fh_hit", "fh_miss", "fn_hit", "fn_miss",
                 "answer_negative_overdue", "answer_int_converted", "rmall", "reload", "usage", "usage_second_chunk",
@@ -369,6 +399,8 @@ class C10(Prop):
                             h["co_by_destructed"] += 1
                         if t[8] != "-":
                             h["co_with_player"] += 1
+                        if t[6].startswith("A"):
+                            h["co_with_4_args"] += 1
                         if d < 1:
                             h["delay_lt1"] += 1
                         elif d < 32:
